@@ -36,5 +36,6 @@ Definition documented : facts := {|
   (* documented: bulk rule sets and *of definitions are different validation contexts and must not share a key *)
   f_cache_sites := [("validate", ""); ("check_with_bulk_schema", "turing"); ("check_with_schema", ""); ("validate_logical", "logical")];
   f_cache_typed_scalars := true;
-  f_cache_per_class := true
+  f_cache_per_class := true;
+  f_handler_add_copies := true
 |}.
